@@ -81,3 +81,23 @@ package keeper
 //@   modifies *
 //@   loop 0 invariant #offsets-untouched: forall i :: k.GetLiquidationOffsetHolder(ctx, "vault-liquidations", i) == old(k.GetLiquidationOffsetHolder(ctx, "vault-liquidations", i))
 //@   ensures #c09-offsets-untouched: forall i :: k.GetLiquidationOffsetHolder(ctx, "vault-liquidations", i) == old(k.GetLiquidationOffsetHolder(ctx, "vault-liquidations", i))
+
+// Seizure of a borrow position (C09, C14), same-pool borrows: the position is marked liquidated only if, after interest
+// accrual, value(principal + accrued interest) / value(pledged collateral) exceeds the (E-mode) liquidation threshold of the
+// collateral asset at the oracle prices in force; a circuit breaker of the lender's app stops it.
+//@ func (k Keeper) LiquidateIndividualBorrow
+//@   property C09, C14
+//@   prune
+//@   let b0 = k.lend.GetBorrow(ctx, borrowID).0
+//@   let bf0 = k.lend.GetBorrow(ctx, borrowID).1
+//@   let pair = k.lend.GetLendPair(ctx, b0.PairID).0
+//@   let l0 = k.lend.GetLend(ctx, b0.LendingID).0
+//@   let ain = k.asset.GetAsset(ctx, pair.AssetIn).0
+//@   let aout = k.asset.GetAsset(ctx, pair.AssetOut).0
+//@   let rs = k.lend.GetAssetRatesParams(ctx, pair.AssetIn).0
+//@   let thr = ite(pair.IsEModeEnabled, rs.ELiquidationThreshold, rs.LiquidationThreshold)
+//@   requires #borrow-keyed: bf0 ==> b0.ID == borrowID
+//@   requires #same-pool-borrow: b0.BridgedAssetAmount.Amount == 0
+//@   letpost b1 = k.lend.GetBorrow(ctx, borrowID).0
+//@   ensures [C09] #c09-borrow-only-unsafe: result == nil && bf0 && !b0.IsLiquidated && b1.IsLiquidated ==> K("lend").CalculateCollateralizationRatio(ctx, b1.AmountIn.Amount, ain, b1.AmountOut.Amount + trunc(b1.InterestAccumulated), aout).1 == nil && K("lend").CalculateCollateralizationRatio(ctx, b1.AmountIn.Amount, ain, b1.AmountOut.Amount + trunc(b1.InterestAccumulated), aout).0 > thr
+//@   fails_if [C14] #c14-breaker: bf0 && !b0.IsLiquidated && k.lend.GetLend(ctx, b0.LendingID).1 && k.esm.GetKillSwitchData(ctx, l0.AppID).0.BreakerEnable
